@@ -14,14 +14,15 @@
      `op.p`; `Gate.apply` overwrites `p[0]` in that shared list while the backend is called;
    * RegRef values: one list (indexed by mode) per RegRef set; a compiled (linked) copy shares
      the RegRef set of its source;
-   * two switches select the code as written or a repaired variant:
-       safe  = Gate.apply restores p[0] also when _apply raises (try/finally)
-       fixed = the engine copies the measured values into the next segment *by mode*
-               (as written: `for k, v in enumerate(self.samples)` iterates over shots)
-       linkok = Program._linked_copy does not deep-copy the `source` attribute (as written it
-               does, and deep-copying a Program whose ops hold MeasuredParameters raises
+   * three switches select the current code (all true, `current`) or an earlier variant
+     (`old_code` = all false), kept so that the refutations of the old behaviour stay checked:
+       safe  = Gate.apply restores p[0] also when _apply raises (try/finally; commit 0e1fbb4)
+       fixed = the engine copies the latest measured value of each mode into the next segment
+               (commit 711526c; before: `for k, v in enumerate(self.samples)` iterated over shots)
+       linkok = Program._linked_copy does not deep-copy the `source` attribute (commit 8c7ef76;
+               before, deep-copying a Program whose ops hold MeasuredParameters raised
                AttributeError: compiling -- hence running -- an already compiled program that
-               uses measured parameters fails). *)
+               uses measured parameters failed). *)
 From Coq Require Import List ZArith Bool Arith Lia.
 Import ListNotations.
 
@@ -94,8 +95,9 @@ Unset Primitive Projections.
 Arguments mkSt {B}. Arguments sb {B}. Arguments sstore {B}. Arguments svals {B}.
 
 Record variant := mkVariant { safe : bool; fixed : bool; linkok : bool }.
-Definition as_written := mkVariant false false false.
-Definition repaired := mkVariant true true true.
+(* the code as it now is (after the fix commits 0e1fbb4, 711526c, 8c7ef76) and as it was before *)
+Definition current := mkVariant true true true.
+Definition old_code := mkVariant false false false.
 
 Section Engine.
 Variable B : Type.
